@@ -63,8 +63,12 @@ def run_unit(unit, repo='/repo', mode='partial', use_cache=True, outdir=None, ex
         for o in new:
             why = r['frontend_owners'][o]
             mh = re.search(r'cannot find function `(\w+)` in this scope', why)
-            if mh and mh.group(1) not in inline.get(o, set()) and len(inline.get(o, set())) < 3:
-                inline.setdefault(o, set()).add(mh.group(1))      # first try to inline the unknown helper; if that does not help the function is stubbed next round
+            hname = mh.group(1) if mh else None
+            mm_ = re.search(r'no method named `(\w+)` found for (?:struct|enum|reference) `&?(?:\w+::)*(\w+)`', why)
+            if mm_:
+                hname = mm_.group(2) + '.' + mm_.group(1)      # an inherent method the unit does not know: `Type.method`
+            if hname and hname not in inline.get(o, set()) and len(inline.get(o, set())) < 3:
+                inline.setdefault(o, set()).add(hname)      # first try to inline the unknown helper; if that does not help the function is stubbed next round
             else:
                 stub[o] = why
     if last.get('status') == 'ok':
@@ -85,14 +89,15 @@ def _run_once(unit, repo, mode, use_cache, outdir, extra_args, rlimit, stub, t0,
     key = hashlib.sha256((text + verus_version() + ' '.join(VERUS_ARGS + (extra_args or [])) + ('rlimit=%s' % rlimit if rlimit else '')).encode()).hexdigest()
     os.makedirs(CACHE, exist_ok=True)
     cpath = os.path.join(CACHE, 'verus-%s-%s-%s.json' % (unit, mode, key[:24]))
+    args = ['verus', meta['file']] + VERUS_ARGS + (extra_args or [])
+    if rlimit:
+        args += ['--rlimit', str(rlimit)]
     if use_cache and os.path.isfile(cpath):
         res = json.load(open(cpath))
         res['cached'] = True
         res['meta'] = meta
+        res['cmd'] = ' '.join(args) + '   (result cached by content: the same assembled text was verified earlier)'
         return res
-    args = ['verus', meta['file']] + VERUS_ARGS + (extra_args or [])
-    if rlimit:
-        args += ['--rlimit', str(rlimit)]
     p = subprocess.run(args, capture_output=True, text=True, cwd=VERIF)
     wall = time.time() - t0
     res = {'unit': unit, 'mode': mode, 'cmd': ' '.join(args), 'wall_s': round(wall, 2), 'cached': False}
